@@ -14,25 +14,20 @@
 (* it has at most 6 mantissa digits and a one-digit exponent, and its      *)
 (* value times 1024 is an integer below 2^24 (exactly an f32).             *)
 (***************************************************************************)
-EXTENDS Integers, Sequences, FiniteSets, TLC
+EXTENDS Integers, Sequences, FiniteSets, TLC, SequencesExt
 
 WS == {9, 10, 12, 13, 32}
 IsDigit(b) == b >= 48 /\ b <= 57
 
 \* ---------------------------------------------------------------- splitting
-RECURSIVE SplitAt(_, _, _, _)
-\* pieces of bs separated by bytes in seps (empty pieces kept iff keepEmpty)
-SplitAt(bs, seps, keepEmpty, acc) ==
-  LET Cur == acc[Len(acc)] IN
-  IF bs = <<>> THEN acc
-  ELSE IF Head(bs) \in seps
-       THEN SplitAt(Tail(bs), seps, keepEmpty,
-                    IF Cur = <<>> /\ ~keepEmpty THEN acc ELSE Append(acc, <<>>))
-       ELSE SplitAt(Tail(bs), seps, keepEmpty, [acc EXCEPT ![Len(acc)] = Append(@, Head(bs))])
-
+\* pieces of bs separated by bytes in seps (empty pieces kept iff keepEmpty);
+\* by separator positions, so that long lines cost linear, not quadratic, time
 Pieces(bs, seps, keepEmpty) ==
-  LET r == SplitAt(bs, seps, keepEmpty, <<<<>>>>) IN
-  IF ~keepEmpty /\ r[Len(r)] = <<>> THEN SubSeq(r, 1, Len(r) - 1) ELSE r
+  LET ps == SetToSortSeq({i \in 1..Len(bs) : bs[i] \in seps}, <)
+      lo(j) == IF j = 1 THEN 1 ELSE ps[j - 1] + 1
+      hi(j) == IF j = Len(ps) + 1 THEN Len(bs) ELSE ps[j] - 1
+      raw == [j \in 1..(Len(ps) + 1) |-> SubSeq(bs, lo(j), hi(j))]
+  IN IF keepEmpty THEN raw ELSE SelectSeq(raw, LAMBDA q : q # <<>>)
 
 Lines(bs) == Pieces(bs, {10}, TRUE)
 Tokens(line) == Pieces(line, WS, FALSE)
